@@ -1,6 +1,7 @@
 import WfProofs.PolicyLemmas
 import WfProofs.PolicyBudget
 import WfProofs.RunnerAcct
+import WfModel.GenRetryAcct
 import WfProofs.EngineReduce
 import WfProofs.EngineWaitUnrepaired
 /-!
@@ -669,3 +670,45 @@ example : Policy.retryInfo { retryNumber := 2, firstAt := 10, lastExc := some 7,
     { retryNumber := 2, elapsed := 5, lastExc := some 7, lastFailedAt := some 12 } := by decide +kernel
 example : Policy.retryInfo { retryNumber := 0, firstAt := 10 } 15 = { retryNumber := 0, elapsed := 0, lastExc := none, lastFailedAt := none } := by
   decide +kernel
+
+/-! ## where the accounting fields are written, as the source has it (`harness/gen/retry_acct.py`) -/
+
+/-- every place of the source that writes `attempts` / `first_attempt_at` / `last_exception` / `last_failed_at`, the failure
+count and elapsed expressions, what the failure events report, the two clock sources and `retry_info()`, as the model has
+them (`applyRes`, `addOrEnqueue`, `newWaiter`, `Waiter.replay`, `inProgToAttempt`, `execCmd`, `C05.runWorkerAttempt`,
+`Policy.retryInfo`) -/
+theorem C05_accounting_source_shape :
+    GenRetryAcct.failuresExprs = ["this_execution.attempts + 1"] ∧
+    GenRetryAcct.elapsedExprs = ["result.failed_at - this_execution.first_attempt_at"] ∧
+    GenRetryAcct.totalAttemptsExprs = ["this_execution.attempts + 1"] ∧
+    GenRetryAcct.reportElapsedExprs = ["result.failed_at - this_execution.first_attempt_at"] ∧
+    GenRetryAcct.retryQueueKwargs = [("event", "tick.event"), ("delay", "delay"), ("step_name", "tick.step_name"),
+      ("attempts", "this_execution.attempts + 1"), ("first_attempt_at", "this_execution.first_attempt_at"),
+      ("last_exception", "result.exception"), ("last_failed_at", "result.failed_at")] ∧
+    -- a returned event and a `StepFailedEvent` for its handler start fresh records
+    GenRetryAcct.otherQueueAcctKwargs = [[], []] ∧
+    GenRetryAcct.stepFailedKwargs = [("attempts", "total_attempts"), ("elapsed_seconds", "elapsed")] ∧
+    GenRetryAcct.workflowFailedKwargs = [("attempts", "total_attempts"), ("elapsed_seconds", "elapsed")] ∧
+    GenRetryAcct.newWaiterKwargs = [("attempts", "this_execution.attempts"), ("first_attempt_at", "this_execution.first_attempt_at"),
+      ("last_exception", "this_execution.last_exception"), ("last_failed_at", "this_execution.last_failed_at")] ∧
+    GenRetryAcct.replayKwargs = [("attempts", "waiter.attempts"), ("first_attempt_at", "waiter.first_attempt_at"),
+      ("last_exception", "waiter.last_exception"), ("last_failed_at", "waiter.last_failed_at")] ∧
+    -- the only other `EventAttempt` is the one `_process_add_event_tick` rebuilds from the tick it processes
+    GenRetryAcct.otherEventAttempts = ["_process_add_event_tick:attempts=tick.attempts,first_attempt_at=tick.first_attempt_at,last_exception=tick.last_exception,last_failed_at=tick.last_failed_at"] ∧
+    GenRetryAcct.rewindKwargs = [("attempts", "in_progress.attempts"), ("first_attempt_at", "in_progress.first_attempt_at"),
+      ("last_exception", "in_progress.last_exception"), ("last_failed_at", "in_progress.last_failed_at")] ∧
+    GenRetryAcct.admitKwargs = [("attempts", "event.attempts or 0"), ("first_attempt_at", "event.first_attempt_at or now_seconds"),
+      ("last_exception", "event.last_exception"), ("last_failed_at", "event.last_failed_at")] ∧
+    GenRetryAcct.runWorkerRetryKwargs = [("retry_number", "worker.attempts"), ("first_attempt_at", "worker.first_attempt_at"),
+      ("last_exception", "worker.last_exception"), ("last_failed_at", "worker.last_failed_at")] ∧
+    GenRetryAcct.queueTickKwargs = [("attempts", "command.attempts"), ("first_attempt_at", "command.first_attempt_at"),
+      ("last_exception", "command.last_exception"), ("last_failed_at", "command.last_failed_at")] ∧
+    -- one clock: failures are stamped with `time.time()` (step wrapper) or the adapter's `get_now()`, which on BasicRuntime is `time.time()`
+    GenRetryAcct.loopFailedAt = [("failed_at", "await self.adapter.get_now()")] ∧
+    GenRetryAcct.wrapperFailedAt = [[("failed_at", "time.time()")]] ∧
+    GenRetryAcct.basicGetNow = "return time.time()" ∧
+    GenRetryAcct.retryInfoZeroCond = "retry.retry_number <= 0 or not retry.first_attempt_at" ∧
+    GenRetryAcct.retryInfoElapsed = ["0.0", "max(0.0, time.time() - retry.first_attempt_at)"] ∧
+    GenRetryAcct.retryInfoKwargs = [("retry_number", "retry.retry_number"), ("elapsed_seconds", "elapsed"),
+      ("last_exception", "retry.last_exception"), ("last_failed_at", "last_failed_at")] := by
+  refine ⟨rfl, rfl, rfl, rfl, rfl, rfl, rfl, rfl, rfl, rfl, rfl, rfl, rfl, rfl, rfl, rfl, rfl, rfl, rfl, rfl, rfl⟩
